@@ -157,6 +157,9 @@ pub fn gen_plan(property: &str, seed: u64, index: u64, tier: Tier) -> Plan {
                     pos = pos.make(&legal[k]);
                     if n + 6 >= plies {
                         ops.push(Op::Search(if very_long { 2 } else { 1 }));
+                    } else if very_long && n >= 120 && rng.chance(1, 3) {
+                        // asked all along the second half of a very long game
+                        ops.push(Op::Search(rng.range(1, 3) as u8));
                     }
                 }
                 knobs.insert("via_game".to_string(), 0);
